@@ -210,6 +210,86 @@ def templates() -> list[dict]:
     return T
 
 
+# generated programs over symbolic shapes: a concrete random program is grown
+# with MARKER axis lengths (5 and 7, which no static source produces); every
+# input axis of length 5 / 7 then becomes the size parameter n / m.  Only
+# operations whose parameters do not mention an axis length are used.
+MARK = {5: "n", 7: "m"}
+GEN_OPS = ["add", "sub", "mul", "truediv", "lt", "where", "maximum", "minimum", "neg", "abs",
+           "sin", "exp", "scalar_add", "scalar_mul", "scalar_rsub", "transpose", "roll",
+           "stack", "expand_dims", "sum", "sum", "einsum", "matmul"]
+GEN_SHAPES = [(5,), (7,), (5, 7), (7, 5), (5, 1), (1, 7), (5, 3), (2, 5), (3, 7), (5, 5),
+              (2, 5, 7), (), (3,)]
+
+
+def generated(rng: np.random.Generator, count: int) -> list[dict]:
+    from ptverif import progspace
+    out = []
+    tries = 0
+    while len(out) < count and tries < count * 5:
+        tries += 1
+        g = progspace._Gen(rng, ("f8",))
+        for _ in range(int(rng.integers(1, 4))):
+            g.add_input(GEN_SHAPES[int(rng.integers(len(GEN_SHAPES)))], "f8", "ph")
+        made = 0
+        for _ in range(60):
+            before = len(g.items)
+            if g.step(GEN_OPS):
+                made += sum(1 for it in g.items[before:] if it["kind"] == "call")
+            if made >= int(rng.integers(2, 7)):
+                break
+        if not made:
+            continue
+        prog = g.finalize(f"gen{len(out)}", int(rng.integers(1, 3)))
+        if any(i.get("kind") != "ph" for i in prog["inputs"]):
+            continue
+        if not any(d in MARK for i in prog["inputs"] for d in i["shape"]):
+            continue
+        # no call parameter may carry a marker length (shift / axis are small ints)
+        import json
+        if any(c["op"] not in ("roll",) and (" 5" in json.dumps(c) or " 7" in json.dumps(c))
+               and c["op"] in ("reshape", "broadcast_to", "full", "zeros", "ones", "index", "pad")
+               for c in prog["calls"]):
+            continue
+        out.append(prog)
+    return out
+
+
+def template_of_program(prog: dict) -> dict:
+    from ptverif import replay as rp
+    params = sorted({MARK[d] for i in prog["inputs"] for d in i["shape"] if d in MARK})
+    inputs = {i["name"]: (tuple(MARK.get(d, d) for d in i["shape"]), "f8")
+              for i in prog["inputs"]}
+
+    class Sym(rp.PtBackend):
+        def __init__(self, ins: dict) -> None:
+            super().__init__({})
+            self.ins = ins
+
+        def make_input(self, inp: dict) -> Any:
+            return self.ins[inp["name"]]
+
+    def build(pt: Any, ins: dict, p: dict) -> dict:
+        b = Sym(ins)
+        b.run(prog)
+        if b.rejections:
+            raise next(iter(b.rejections.values())).exc
+        return b.outs()
+
+    def ref(data: dict, sizes: dict) -> dict:
+        import warnings
+        nb = rp.NpBackend(data)
+        with warnings.catch_warnings():
+            warnings.simplefilter("ignore")
+            nb.run(prog)
+        if nb.rejections:
+            raise MachineryError(f"{prog['id']}: NumPy rejects the program at sizes {sizes}: "
+                                 f"{next(iter(nb.rejections.values())).exc}")
+        return {k: np.asarray(v) for k, v in nb.outs().items()}
+    return {"name": prog["id"], "params": params, "inputs": inputs, "build": build,
+            "ref": ref}
+
+
 def dim_value(d: Any, sizes: dict) -> int:
     if isinstance(d, int):
         return d
@@ -237,6 +317,11 @@ def run_template(t: dict) -> dict:
         ins = {nm: pt.make_placeholder(nm, tuple(dim_pt(d) for d in shp), np.float64)
                for nm, (shp, _) in t["inputs"].items()}
         outs = t["build"](pt, ins, params)
+    except NotImplementedError as ex:
+        # a documented refusal (e.g. "Parametric shapes for reduction axes not yet
+        # supported"): constrains nothing
+        res["refused"] = str(ex)[:100]
+        return res
     except Exception as ex:      # noqa: BLE001
         res["problems"].append({"clause": "construction_raised",
                                 "what": f"{type(ex).__name__}: {ex}"[:300]})
@@ -284,9 +369,8 @@ def run_template(t: dict) -> dict:
         return res
     res["kernel"] = bp
     for sizes in sizes_list:
-        data = {nm: np.ascontiguousarray(
-            rng.standard_normal(tuple(dim_value(d, sizes) for d in shp)))
-                for nm, (shp, _) in t["inputs"].items()}
+        data = {nm: np.asarray(rng.standard_normal(tuple(dim_value(d, sizes) for d in shp)))
+                for nm, (shp, _) in t["inputs"].items()}      # (0-d stays 0-d)
         ref = t["ref"](data, sizes)
         try:
             kw = {k: v for k, v in data.items() if k in bp.kernel.arg_dict}
@@ -313,7 +397,7 @@ def _run_templates(ts: list[dict]) -> list[dict]:
     byname = {t["name"]: t for t in templates()}
     out = []
     for spec in ts:
-        t = dict(byname[spec["name"]])
+        t = template_of_program(spec["prog"]) if "prog" in spec else dict(byname[spec["name"]])
         t["sizes"] = spec["sizes"]
         out.append(run_template(t))
     return out
@@ -354,10 +438,16 @@ def main(tier: str, only: list[dict] | None = None) -> int:
     sizes = [1, 2, 3, 5] if tier == "quick" else [1, 2, 3, 4, 5, 6]
     specs = [{"name": t["name"], "sizes": sizes if len(t["params"]) == 1 else
               (sizes if tier == "thorough" else [1, 2, 4])} for t in templates()]
-    if only is not None and only and "template" in only[0]:
+    gen = generated(np.random.default_rng(seed() + 16), 60 if tier == "quick" else 800)
+    specs += [{"name": p["id"], "sizes": [1, 2, 4] if tier == "quick" else [1, 2, 3, 6],
+               "prog": p} for p in gen]
+    if only is not None and only and "prog" in only[0]:
+        specs = [{"name": only[0]["prog"]["id"], "sizes": [1, 2, 4], "prog": only[0]["prog"]}]
+    elif only is not None and only and "template" in only[0]:
         specs = [s for s in specs if s["name"] == only[0]["template"]]
     elif only is not None:
         specs = []
+    prog_of = {s["name"]: s.get("prog") for s in specs}
     tres = robust_map(_run_templates, specs, chunk=1, crashed=lambda sp, why: {
         "name": sp["name"], "records": [], "runs": 0,
         "problems": [{"clause": "execution_crashed", "what": why}]})
@@ -370,15 +460,20 @@ def main(tier: str, only: list[dict] | None = None) -> int:
         for pr in t["problems"]:
             run.violation(f"{t['name']}|{pr['clause']}|{pr['what'][:60]}",
                           f"template {t['name']}: {pr['clause']}: {pr['what']}",
-                          record={"template": t["name"]},
-                          sig={"clause": pr["clause"], "template": t["name"]})
+                          record={"prog": prog_of[t["name"]]} if prog_of.get(t["name"])
+                          else {"template": t["name"]},
+                          sig={"clause": pr["clause"],
+                               "template": "generated" if prog_of.get(t["name"])
+                               else t["name"], "what": pr["what"][:60]})
     for rec in shape_records:
         v = sval.verdicts[rec["id"]]
         if v != "ok":
             run.violation(rec["id"], f"{rec['id']}: inferred symbolic shape component differs "
                                      f"from the concrete NumPy shape at some valuation "
                                      f"(clause {v})",
-                          record={"template": rec["id"].split("/")[0]},
+                          record={"prog": prog_of[rec["id"].split("/")[0]]}
+                          if prog_of.get(rec["id"].split("/")[0])
+                          else {"template": rec["id"].split("/")[0]},
                           sig={"clause": "shape:" + v})
     run.coverage.update({
         "evaluations": len(recs) + runs, "distinct_nontrivial": len(recs),
@@ -387,7 +482,9 @@ def main(tier: str, only: list[dict] | None = None) -> int:
                 "decision is compared with the specification's",
         "pairs": len(recs), "pairs_used_as_axis_lengths": used,
         "pairs_exhaustive_for_1_and_2_params": exhaustive,
-        "templates": len(specs), "kernel_runs": runs,
+        "templates": len(specs), "generated_symbolic_programs": len(gen),
+        "documented_refusals": sum(1 for t in tres if t.get("refused")),
+        "kernel_runs": runs,
         "shape_components_judged_by_tlc": len(shape_records),
         "states": design_states + val.states + (sval.states if sval else 0),
         "transitions": val.transitions, "design_states": design_states,
